@@ -201,7 +201,8 @@ def synthetic_graph(rng):
         elif r < 0.9:
             # a nested function definition that closes over a value of the enclosing function which later statements use too
             row = py.Value(None)
-            body = py.call(py.getattr(np_, rng.choice(["multiply", "add", "subtract"])), [row, a])
+            body = (py.call(py.getattr(np_, rng.choice(["multiply", "add", "subtract"])), [row, a]) if rng.random() < 0.6
+                    else py.operator(rng.choice(["*", "+"]), a, row))               # an inlinable body that starts from the outer value
             if rng.random() < 0.4:
                 body = py.operator("+", body, rng.choice(pool))
             fn = tracer.Graph([row], body)
@@ -225,9 +226,24 @@ def synthetic_graph(rng):
         elif r < 0.95:
             v = py.call(py.getattr(np_, "where"), [py.operator("<", a, b), a, b])
             desc.append("compare")
-        else:
+        elif r < 0.975:
             v = py.call(py.getattr(np_, "clip"), [a], {"a_min": -2, "a_max": rng.randint(0, 3)})
             desc.append("kwarg")
+        elif r < 0.99:
+            # traced values handed over by keyword only (one of them an inlinable expression that nothing else uses)
+            lo = py.operator("-", b, 5)
+            hi = py.call(py.getattr(np_, "abs"), [rng.choice(pool)])
+            v = py.call(py.getattr(np_, "clip"), [a], {"a_min": lo, "a_max": hi})
+            desc.append("traced_kwarg")
+        else:
+            # functions nested two deep; the innermost body starts from a value of the outermost function and uses the
+            # parameters of both enclosing functions
+            j, kk = py.Value(None), py.Value(None)
+            innermost = tracer.Graph([kk], py.operator("+", py.getitem(a, j), kk))
+            mid = tracer.Graph([j], py.builtins.list(py.builtins.map(innermost, [10, 20])))
+            nested = py.builtins.list(py.builtins.map(mid, [rng.randint(0, 3), rng.randint(0, 3)]))
+            v = py.call(py.getattr(np_, "reshape"), [py.call(py.getattr(np_, "asarray"), [nested]), (4,)])
+            desc.append("nested_def_two_deep")
         pool.append(v)
     outs = rng.sample(pool[nin:], min(len(pool) - nin, rng.randint(1, 3)))
     out = outs[0] if len(outs) == 1 else tuple(outs)
